@@ -2,6 +2,14 @@
 # Generates /verif/MANIFEST.json from the table below (kept in one place so that it stays valid).
 import json
 claimed = {
+ "C09": ('exploration', 'Engine A operation invoke: generated kernel-contract programs (get / put / delete / bounded scan / nested call / copy / failing status / error) go through the real Chain.PreExec, are assembled, then ONE of 11 mutations of read set / write set / transient outputs / requests / limits / gas, or a stale read, or nothing; unmutated must be admitted and its commit must change exactly the write-set keys and declared outputs (raw table diff), everything else must be rejected and change nothing', 'pre-exec = verify = commit differential with single-mutation fault operators'),
+ "C10": ('exploration', 'sandbox engine: random Get / Put / Del / Select(bounds, early stop) / Transfer sequences on a real StateSandbox over the real XModel (live, deleted, never-written keys, several buckets, transient bucket, unconfirmed writes) against an overlay-map model per call; RW-set checks, replay over XMReaderFromRWSet, soundness by perturbing every unread backing key, storage read / iterator faults', 'overlay-map reference model + replay + perturbation under injected read faults'),
+ "C11": ('exploration', 'ACL engine: rules (thresholds with boundary weights, key sets, nested accounts) created through the real $acl contract; for every generated rule ALL signer subsets over <= 8 URIs plus duplicate / foreign / inner-name variants are evaluated by the real IdentifyAccount / CheckContractMethodPerm against a reference evaluator; sampled through full signed transactions with the rule change pending / confirmed / undone by a reorganisation', 'exhaustive signer-subset enumeration per generated rule + model-based admission oracle'),
+ "C12": ('exploration', 'Engine B (coopsim): 2-4 concurrent SubmitTx / locking SelectUtxos / block play requests on one real node as cooperative tasks with planned preemptions at lock and statement granularity; outcomes and final observations must equal some serial order executed on a clone of the pre-state; selectors disjoint, C02/C03 invariants, no deadlock, no crash; injected write error inside the batch', 'seeded schedule exploration (cooperative scheduler) + serial-order equivalence oracle'),
+ "C15": ('exploration', 'Engine C: real Smr / QCPendingTree / safety rules / pacemaker / crypto driven with trees of <= 12 (16) proposals in every drawn arrival order (children first, duplicates, competing children), votes, confirmed blocks, explicit rollbacks, crash-restart; after every event: tree shape, exactly-once storage incl. orphan adoption, HighQC monotone, markers are successive ancestors, root only moves to descendants', 'message-order fault exploration with structural invariants after every event'),
+ "C16": ('exploration', "schedule engine: (a) tiling sweep of the real tdpos / xpoa scheduling over configuration boxes (quick: slot boundaries +-2 ms over >= 3 terms; thorough: every millisecond) against the tiling oracle; (b) acceptance through the real CheckMinerMatch / ProcBlock for single / tdpos / xpoa / pow with right and wrong proposer, key, slot, receiver clock skew and jumps, PoW targets from the chain's own history with an independent compact decoder", 'bounded sweep + seeded acceptance scenarios with clock faults'),
+ "C19": ('exploration', 'governance engine: sequences of Init / Transfer (self, fresh, 0, > balance, huge) / Propose / Vote / Thaw / Lock / UnLock and timer settlements through the real tx pipeline on 1-2 nodes with chain switches; conservation of the sum, locks change only by lock / unlock effects, no transfer below a lock, no negative amounts, on confirmed state and state+pool', 'effect-fold reference model over seeded histories with reorganisations'),
+ "C20": ('exploration', 'p2p engine: (a) every message built by the real NewMessage crosses the simulated wire; ALL single-bit flips (payloads <= 48 bytes) and seeded bursts <= 32 bits of the encoded payload must be detected; response-type map injective; (b) real Dispatcher under 1-3 concurrent tasks of Register / UnRegister / Dispatch with planned preemptions: porcupine linearizability against a subscriber-set model, exactly-once delivery to exactly the matching subscribers, de-duplication window across clock steps', 'corruption fault enumeration + linearizability (porcupine) of seeded schedules'),
  "C01": ("exploration", "Engine A (chainsim): seeded plans of tx / kv-contract tx / mine / deliver / walk (cross-fork, prune) / reopen / clock steps on 1-3 real nodes; after every step the node is compared (a) with a fresh node that plays genesis..B and re-admits the pool and (b) with the reference model S(B)+pool (U table, totals, key values and versions, scans)", "differential fresh replay + reference model over seeded histories"),
  "C02": ("exploration", "Engine A: conservation sums (table U + pending fees = GetTotal = sum of coinbase outputs of applied blocks; balance = sum of own outputs; every admitted tx balanced) after every step, including failed and adversarial submissions (unbalanced amounts, huge / zero / leading-zero encodings, duplicated inputs, coinbase flag, second coinbase, wrong award)", "conservation invariants checked after every simulated step"),
  "C03": ("exploration", "Engine A: admission oracle from the model (admitted iff every token input unspent / unfrozen / owned / sized as cited and every read version current in S(tip)+pool), global double-spend scan over chain+pool, conflict families (same output, R-R / R-W / W-W on a key) split between pool, blocks, branches and walks", "model-based admission oracle + double-spend scan over seeded histories"),
@@ -15,15 +23,7 @@ claimed = {
 pending = {
  "C07": "corruption-operator engine not yet built in this snapshot",
  "C08": "block-corruption engine not yet built in this snapshot",
- "C09": "pre-exec / verify / commit engine not yet built in this snapshot",
- "C10": "sandbox engine not yet built in this snapshot",
- "C11": "ACL engine not yet built in this snapshot",
- "C12": "cooperative-scheduler engine not yet built in this snapshot",
  "C14": "quorum-certificate engine not yet built in this snapshot",
- "C15": "pending-tree engine not yet built in this snapshot",
- "C16": "slot-schedule engine not yet built in this snapshot",
- "C19": "governance-token engine not yet built in this snapshot",
- "C20": "p2p message / dispatcher engine not yet built in this snapshot",
 }
 import importlib.util, os
 ov = "/verif/manifest_overrides.json"
